@@ -19,11 +19,11 @@ import numpy as np
 from tlc import run_tlc
 
 
-def child(mode, scratch):
+def child(mode, scratch, thorough=False, seed=0):
     import traceback
     import c11_cases
     res = []
-    for name, kernel, thunk in c11_cases.cases(mode, scratch):
+    for name, kernel, thunk in c11_cases.cases(mode, scratch, thorough, seed):
         try:
             thunk()
             res.append(dict(name=name, kernel=kernel, fault=None))
@@ -110,7 +110,7 @@ def run(chk):
     results = []
     for mode, env in (('bc', {'NUMBA_BOUNDSCHECK': '1'}), ('nojit', {'NUMBA_DISABLE_JIT': '1'})):
         e = dict(os.environ, **env)
-        p = subprocess.run([sys.executable, '-c', f'import c11; c11.child({mode!r}, {chk.scratch!r})'], env=e, capture_output=True, text=True, timeout=3000)
+        p = subprocess.run([sys.executable, '-c', f'import c11; c11.child({mode!r}, {chk.scratch!r}, {not chk.quick!r}, {chk.seed!r})'], env=e, capture_output=True, text=True, timeout=3000)
         line = [l for l in p.stdout.splitlines() if l.startswith('C11RESULT ')]
         if not line:
             raise RuntimeError(f'C11 child ({mode}) failed:\n' + p.stdout[-1500:] + p.stderr[-3000:])
